@@ -22,10 +22,12 @@ type params struct {
 	prelaunch string // none | spawn | restart
 	twice     bool   // fail in the first two incarnations
 	hookFail  string // none | prerestart | restarted
+	slowDec   bool   // the supervisor's decision maker answers only after the failed child has been killed by somebody else
+	watch     string // none | b-dies-first: b watches a, b is killed, then a is killed (a's notification finds a dead watcher)
 }
 
 func (p params) name() string {
-	return fmt.Sprintf("site=%s/%s/dec=%s/prov=%v/become=%v/kill=%s/prelaunch=%s/twice=%v/hook=%s", p.site, p.cause, p.decision.String(), p.provider, p.become, p.kill, p.prelaunch, p.twice, p.hookFail)
+	return fmt.Sprintf("site=%s/%s/dec=%s/prov=%v/become=%v/kill=%s/prelaunch=%s/twice=%v/hook=%s", p.site, p.cause, p.decision.String(), p.provider, p.become, p.kill, p.prelaunch, p.twice, p.hookFail) + map[bool]string{true: "/slow-decision", false: ""}[p.slowDec] + map[bool]string{true: "/watch=" + p.watch, false: ""}[p.watch != "" && p.watch != "none"]
 }
 
 func fail(ctx vivid.ActorContext, cause string) {
@@ -95,6 +97,24 @@ func scenario(p params, bounds []int) *vexp.Scenario {
 				a.Restarted = func(*vsys.Act) error { panic("scripted restarted panic") }
 			}
 			b := &vsys.Script{Name: "b"}
+			if p.watch == "b-dies-first" {
+				b.Launch = func(act *vsys.Act, ctx vivid.ActorContext) { ctx.Watch(w.Ref("/p/a")) }
+			}
+			if p.slowDec {
+				w.BeforeDecision = func(supervisor, child string) {
+					if child != "/p/a" {
+						return
+					}
+					vrt.Block(vrt.KYield, 0, "slow decision maker", func() bool {
+						for _, pb := range w.Pubs {
+							if pb.Type == "ActorKilledEvent" && pb.Ref == "/p/a" {
+								return true
+							}
+						}
+						return false
+					})
+				}
+			}
 			par := &vsys.Script{Name: "p", Children: []*vsys.Script{a, b}}
 			par.Strategy = w.Decider("/p", false, p.decision)
 			par.OnMsg = func(act *vsys.Act, ctx vivid.ActorContext, m vsys.Msg) {
@@ -133,6 +153,10 @@ func scenario(p params, bounds []int) *vexp.Scenario {
 			if p.site == "childKilled" {
 				w.Sys.Kill(w.Ref("/p/a/g"), false, "driver")
 				vrt.Yield()
+			}
+			if p.watch == "b-dies-first" {
+				w.Sys.Kill(w.Ref("/p/b"), false, "driver")
+				vrt.Quiesce()
 			}
 			switch p.kill {
 			case "out-now":
@@ -222,6 +246,20 @@ func build(tier string) []*vexp.Scenario {
 			q.site, q.decision, q.kill = "msg", d, k
 			add(q)
 		}
+	}
+	// the decision arrives after the failed child has already been killed by somebody else
+	for _, d := range decisions {
+		for _, cause := range []string{"panic", "failed"} {
+			q := base
+			q.site, q.cause, q.decision, q.kill, q.slowDec = "msg", cause, d, "out-now", true
+			add(q)
+		}
+	}
+	// a watcher that died before the actor it watches
+	for _, k := range []string{"out-now", "out-poison", "self-poison", "parent-now"} {
+		q := base
+		q.kill, q.watch = k, "b-dies-first"
+		add(q)
 	}
 	// prelaunch failures
 	p := base
